@@ -1448,18 +1448,22 @@ def i_POPCNT(i, fmap):
 
 def i_LZCNT(i, fmap):
     logger.warning("%s semantic is not defined" % i.mnemonic)
-    dst, src = i.operands
-    fmap[dst] = top(dst.size)
-    fmap[cf] = fmap[zf] = top(1)
     fmap[rip] = fmap[rip] + i.length
+    dst, src = i.operands
+    x = fmap(src)
+    fmap[dst] = top(dst.size)
+    fmap[cf] = x == 0
+    fmap[zf] = x.bit(-1)  # no leading zero
 
 
 def i_TZCNT(i, fmap):
     logger.warning("%s semantic is not defined" % i.mnemonic)
-    dst, src = i.operands
-    fmap[dst] = top(dst.size)
-    fmap[cf] = fmap[zf] = top(1)
     fmap[rip] = fmap[rip] + i.length
+    dst, src = i.operands
+    x = fmap(src)
+    fmap[dst] = top(dst.size)
+    fmap[cf] = x == 0
+    fmap[zf] = x.bit(0)  # no trailing zero
 
 
 def i_BT(i, fmap):
